@@ -219,7 +219,7 @@ def main(argv=None) -> int:
             rc = finish(ctx, t0, seed, floors, None)
             return 1 if rc == 1 else 2
         # fail closed: a wholesale loss of analysability is not a pass
-        decided = sum(1 for o in ctx.obs if o.status != "unknown")
+        decided = sum(1 for o in ctx.obs if o.status != "unknown" and o.key not in getattr(ctx, "closure_keys", set()))
         if floors and decided < floors.get("min_decided", 0):
             print(f"ANALYSIS-ERROR property={pid}: only {decided} obligations decided, the confirmed floor is "
                   f"{floors['min_decided']}; the analysis no longer applies to this tree and must be re-confirmed")
